@@ -77,9 +77,11 @@ Proof.
     match goal with Hx : String.eqb (r_type r) _ = true |- _ => apply String.eqb_eq in Hx; rewrite Hx; reflexivity end. }
   unfold rendition_attrs. rewrite !forallb_app, !forallb_opt_list, !forallb_opt_q. cbn [forallb].
   rewrite Ht.
-  destruct (String.eqb (r_language r) ""), (String.eqb (r_name r) ""), (r_autoselect r), (r_default r), (r_forced r),
-    (r_channels r), (r_uri r), (r_instreamid r); cbn [negb opt_ok] in *;
-    rewrite ?quoted_attr_ok2 by auto; reflexivity.
+  repeat (match goal with |- (_ && _) = true => apply andb_true_iff; split end); try reflexivity;
+    try (match goal with |- (if ?b then _ else _) = true => destruct b; [|reflexivity] end);
+    try (match goal with |- match ?o with Some _ => _ | None => _ end = true =>
+           let E := fresh "E" in destruct o eqn:E; [|reflexivity] end);
+    cbn [opt_ok] in *; first [reflexivity | apply quoted_attr_ok2; auto].
 Qed.
 
 Lemma rendition_roundtrip r : wf_rendition r = true ->
